@@ -196,15 +196,15 @@ def check_trees(trees, res):
 def shard(shard, nshards, rng, tier, extra):
     res = Result()
     check_pairs(all_pairs_items(tier, shard, nshards), res, 'A:all-code-pairs-small-words')
-    check_pairs(corner_items(rng, (1500 if tier == 'quick' else 40000) // nshards), res, 'B:extreme-corners')
-    check_pairs(random_items(rng, (3000 if tier == 'quick' else 80000) // nshards), res, 'C:random')
+    check_pairs(corner_items(rng, (4500 if tier == 'quick' else 40000) // nshards), res, 'B:extreme-corners')
+    check_pairs(random_items(rng, (9000 if tier == 'quick' else 80000) // nshards), res, 'C:random')
     # the same operations while a class-wide template is installed (Fxp.template): the result format follows the operands
     its = []
-    for it in corner_items(rng, (500 if tier == 'quick' else 12000) // nshards):
+    for it in corner_items(rng, (1500 if tier == 'quick' else 12000) // nshards):
         cfg = dict(it[8]); cfg['_template'] = rng.choice(['fxp-u8/2', 'fxp-s16/4', 'fxp-u16/0', 'fxp-s8/7'])
         if '_build' not in cfg: its.append(it[:8] + (cfg,))
     check_pairs(its, res, 'T:class-template-installed')
-    tree_cases(rng, (600 if tier == 'quick' else 15000) // nshards, res)
+    tree_cases(rng, (1800 if tier == 'quick' else 15000) // nshards, res)
     res.exhaustive = True
     return res
 
